@@ -62,6 +62,7 @@ static void h_run_case(hcase_t* c) {
   rt_reg((void*)&rw.read_waiters.tail, 8, 312, 8);
   rt_reg((void*)&shared_cell, 8, 500, 8);
   rt_reg(nodes, sizeof nodes, 100, 8);
+  rt_reg_rest(&rw, sizeof rw, 3900);   /* search mode only: fields the model does not know */
   rt_name(nodes, sizeof nodes, 1, sizeof nodes[0]);
   t1_run(n, prog, c->sched, c->nsched, dmax);
   rt_print_trace();
